@@ -116,7 +116,7 @@ func NewSpec() *Spec {
 var labelRe = regexp.MustCompile(`^\[([^\]]*)\]\s*`)
 var clauseKeywords = map[string]bool{"func": true, "spec": true, "ghost": true, "axiom": true, "import": true, "requires": true,
 	"ensures": true, "loop": true, "assert@call": true, "prologue": true, "epilogue": true, "modifies": true, "pure": true,
-	"assumed": true, "trusted": true, "maypanic": true, "lemma": true, "ground": true, "roundtrip": true, "jsoncompat": true, "nosafety": true, "params": true, "safety": true, "fvtargets": true}
+	"assumed": true, "trusted": true, "maypanic": true, "lemma": true, "ground": true, "roundtrip": true, "jsoncompat": true, "tables": true, "nosafety": true, "params": true, "safety": true, "fvtargets": true}
 
 func splitLabels(rest string) ([]string, string) {
 	if m := labelRe.FindStringSubmatch(rest); m != nil {
@@ -340,7 +340,7 @@ func (s *Spec) ParseSpecFile(path, pkgPath string) error {
 			}
 			s.Lemmas = append(s.Lemmas, c)
 			s.LemmaPkg[c] = pkgPath
-		case "roundtrip", "jsoncompat":
+		case "roundtrip", "jsoncompat", "tables":
 			// JSON judgements over the type declarations (jsonrt.go)
 			labels, text := splitLabels(rest)
 			c := &Clause{Kind: kw, Labels: labels, Text: text, File: path, Line: rl.line}
